@@ -1,10 +1,10 @@
 (* parsing of the scenario text shared by the C10 / C01 drivers; no model logic.
    header: salt sealcode nv (id w)* extra... ; ops: e id cr seq frame parents... | n (next epoch)
-   sealcode = sealing frame + 100 * policy *)
+   sealcode = sealing frame + 100 * policy + 1000 * applyFrom + 10000 * cache config (ignored here) *)
 open Model
 open Conv
 
-type scn = { vals : (n * n) list; seal : n; pol : n; extra : string list; eps : fev list list; nev : int }
+type scn = { vals : (n * n) list; seal : n; pol : n; af : int; extra : string list; eps : fev list list; nev : int }
 
 let parse (inp : string list) : scn =
   match split_on ";" inp with
@@ -25,7 +25,8 @@ let parse (inp : string list) : scn =
          | _ -> ()) ops;
        eps := List.rev !cur :: !eps;
        let sc = int_of_string seal in
-       { vals; seal = n_of_tok (string_of_int (sc mod 100)); pol = n_of_tok (string_of_int (sc / 100)); extra;
+       { vals; seal = n_of_tok (string_of_int (sc mod 100)); pol = n_of_tok (string_of_int ((sc / 100) mod 10));
+         af = (sc / 1000) mod 10; extra;
          eps = List.rev !eps; nev = !nev }
      | _ -> failwith "bad header")
 
@@ -40,17 +41,32 @@ let unopened (s : scn) res : int =
   let rec drop k l = if k = 0 then l else (match l with [] -> [] | _ :: t -> drop (k - 1) t) in
   List.fold_left (fun a d -> a + List.length d) 0 (drop (List.length res) s.eps)
 
-let block_tokens res : string list =
-  let ep = ref 0 and last = ref "0" and sealed_n = ref 0 in
-  let toks = List.concat (List.map (fun ((_, bs), sealed) ->
+(* validators of epoch 1, 2, ... under the scenario's sealing policy *)
+let vals_of_epochs (s : scn) (k : int) : (n * n) list array =
+  let a = Array.make (k + 2) s.vals in
+  for ep = 2 to k + 1 do a.(ep) <- next_vals s.pol a.(ep - 1) (n_of_tok (string_of_int (ep - 1))) done;
+  a
+
+(* "d<ids>" for a block whose ApplyEvent is installed (block number nblk of the run, 0-based), else "dn" *)
+let deliv_tok (af : int) (nblk : int) (ids : n list) : string =
+  if af = 9 || nblk < af then "dn"
+  else "d" ^ String.concat "," (List.map string_of_int (List.sort compare (List.map (fun x -> Z.to_int (z_of_n x)) ids)))
+
+let block_tokens (s : scn) res : string list =
+  let va = vals_of_epochs s (List.length s.eps) in
+  let ep = ref 0 and last = ref "0" and sealed_n = ref 0 and nblk = ref 0 in
+  let toks = List.concat (List.map2 (fun ((_, bs), sealed) d ->
       incr ep; last := "0";
       let n = List.length bs in
+      let dl = if bs = [] then [] else delivered_spec va.(!ep) d in
       let t = List.concat (List.mapi (fun i ((f, a), ch) ->
           last := tok_of_n f;
+          let dt = deliv_tok s.af !nblk (try List.nth dl i with _ -> []) in
+          incr nblk;
           ["B"; string_of_int !ep; tok_of_n f; tok_of_n a; (if sealed && i = n - 1 then "1" else "0");
-           string_of_int (List.length ch)] @ List.map tok_of_n ch) bs) in
+           string_of_int (List.length ch)] @ List.map tok_of_n ch @ [dt]) bs) in
       if sealed then (incr sealed_n; last := "0");
-      t) res) in
+      t) res (List.filteri (fun i _ -> i < List.length res) s.eps)) in
   toks @ ["L"; string_of_int (1 + !sealed_n); !last]
 
 let any_block res = List.exists (fun ((_, bs), _) -> bs <> []) res
